@@ -96,8 +96,10 @@ Step(e) ==
              mem |-> IF known THEN [mem EXCEPT ![e.id] = AddAcc(@, Acc(t, c[t], e.loc, e.size, FALSE))] ELSE mem, excl |-> excl,
              V |-> (IF ~e.dok \/ ~e.aok THEN {<<"C05", "reads_original">>} ELSE {})
                    \cup (IF known /\ ~b.live THEN {<<"C05", "no_uaf">>, <<"C06", "no_uaf">>} ELSE {})
+                   \* a buffer read racing with a write of the new exclusive owner: besides being a data
+                   \* race (C06) it is an execution in which C11 lets the reader see other bytes (C05)
                    \cup (IF known /\ b.live /\ ~(\A a \in b.acs : (a.wr /\ Overlap(a, e.loc, e.size)) => HB(a, t, c))
-                         THEN {<<"C06", "no_race">>} ELSE {})]
+                         THEN {<<"C06", "no_race">>, <<"C05", "reads_original_weak">>} ELSE {})]
     [] e.k = "write" ->
          LET known == e.id > 0 /\ e.id \in DOMAIN mem
              b == IF known THEN mem[e.id] ELSE NoBlk
@@ -105,7 +107,7 @@ Step(e) ==
          IN [clk |-> Tick(clk, t), rel |-> rel,
              mem |-> IF known THEN [mem EXCEPT ![e.id] = AddAcc(@, Acc(t, c[t], e.loc, e.size, TRUE))] ELSE mem, excl |-> excl,
              V |-> (IF known /\ ~b.live THEN {<<"C05", "no_uaf">>, <<"C06", "no_uaf">>} ELSE {})
-                   \cup (IF known /\ b.live /\ ~ordered THEN {<<"C06", "no_race">>} ELSE {})]
+                   \cup (IF known /\ b.live /\ ~ordered THEN {<<"C06", "no_race">>, <<"C05", "reads_original_weak">>} ELSE {})]
     [] e.k = "excl" ->
          LET n == (IF e.id \in DOMAIN excl THEN excl[e.id] ELSE 0) + 1 IN
          [clk |-> clk, rel |-> rel, mem |-> mem, excl |-> (e.id :> n) @@ excl,
